@@ -56,6 +56,7 @@ class Report:
         self.assumptions: list[str] = []
         self.explanation = ''
         self.extra: dict[str, Any] = {}
+        self.floor_failures: list[str] = []
         self.t0 = time.time()
 
     # ---- recording -------------------------------------------------------
@@ -119,7 +120,11 @@ class Report:
         """Fewer instances than confirmed by hand: the rule went blind."""
         self._rule(rule)
         if found < minimum:
-            raise AnalysisError(
+            # Decided at the end of the run: if the run also found
+            # violations they are reported (the missing instances are
+            # usually the deleted construct itself); otherwise the run is
+            # an analysis error, never a silent pass.
+            self.floor_failures.append(
                 f'{rule}: found {found} {what}, floor is {minimum} '
                 '(the rule no longer sees its instances)',
             )
@@ -189,6 +194,13 @@ def finish(rep: Report, seed: int, write: bool = True) -> int:
     for r, c in sorted(rep.rules.items()):
         print(f'  rule {r}: instances={c["instances"]} '
               f'discharged={c["discharged"]} violations={c["violations"]}')
+    for ff in rep.floor_failures:
+        print(f'FLOOR: {ff}')
+    if rep.floor_failures and not new:
+        # nothing else explains the missing instances: the rule went blind
+        print(f'ANALYSIS-ERROR: property={rep.pid} '
+              + '; '.join(rep.floor_failures))
+        return 2
     if write:
         write_evidence(rep, seed, new, listed, nob, ndis, distinct)
     return 1 if new else 0
